@@ -6,7 +6,7 @@ P="$(realpath "$1")"; shift
 D=$(mktemp -d /var/tmp/hc-mut-XXXXXX)
 trap 'rm -rf "$D"' EXIT
 mkdir -p "$D/repo"
-cp -r /repo/src /repo/tests /repo/pyproject.toml /repo/setup.cfg "$D/repo/" 2>/dev/null || cp -r /repo/src "$D/repo/"
+cp -r /repo/src /repo/tests /repo/docs /repo/pyproject.toml "$D/repo/" 2>/dev/null || cp -r /repo/src /repo/docs "$D/repo/"
 case "$P" in
   *.sed) F=$(head -1 "$P" | sed 's/^# *//'); sed -i -f "$P" "$D/repo/$F" ;;
   *) (cd "$D/repo" && patch -p1 -s < "$P") ;;
